@@ -40,6 +40,15 @@ type Node struct {
 	HasDef bool   `json:"has_def,omitempty"`
 	DefPos int    `json:"def_pos,omitempty"` // position of default among the cases
 	Dead  bool    `json:"dead,omitempty"`   // jump statements: followed by a (dead) trace in the same block
+	Fill  int     `json:"fill,omitempty"`   // trace statements: 0 none, else a filler statement (see fillers) follows the trace
+}
+
+// fillers are straight-line statements placed between the control constructs. They do not change where control goes;
+// they change what the compiler and its peephole optimizer see inside the blocks whose lengths the jump offsets are
+// computed from (constant folding, in-place updates, indexed stores), and their effect is visible in every later trace.
+var fillers = []string{"",
+	"acc += 1 + 2", "acc -= 2 - 1", "zs[1+1] = acc", "acc = acc*2 + 1", "acc++", "acc += zs[0+1]", "acc = 1 + 2 - 3 + acc", "acc = 10 - 1 - acc",
+	"zs[acc&3] += 1 + 1", "acc -= 0", "acc = -acc", "acc ^= 1 + 4", "acc, zs[0] = zs[0], acc", "acc += len(zs) - 1", "zs = append(zs[:2+1], acc)", "acc--",
 }
 
 type Case struct {
@@ -108,14 +117,19 @@ func (p *printer) block(ns []*Node, d int, nest int) {
 func (p *printer) node(n *Node, d int, nest int) {
 	switch n.K {
 	case "t":
-		p.line(d, "fmt.Println(\"t\", %d, %s)", n.ID, p.counterSum())
+		p.line(d, "fmt.Println(\"t\", %d, %s, acc, zs[0])", n.ID, p.counterSum())
+		if n.Fill > 0 {
+			p.line(d, "%s", fillers[n.Fill%len(fillers)])
+		}
 	case "if":
 		p.ifChain(n, d, nest, "if")
 	case "for":
 		v := fmt.Sprintf("i%d", n.ID)
 		post := v + "++"
 		init := v + " := 0"
-		switch n.Post % 5 {
+		switch n.Post % 6 {
+		case 5: // the step is a constant expression
+			post = v + " += 2 - 1"
 		case 1:
 			post = fmt.Sprintf("%s = inc(%s, %d)", v, v, n.ID)
 		case 2:
@@ -247,9 +261,9 @@ func (s *Skel) Source() (string, map[int]int) {
 	sb.WriteString("func one(id int) int {\n\tfmt.Println(\"post\", id)\n\treturn 1\n}\n\n")
 	sb.WriteString("func is(a int, b int) bool {\n\treturn a == b\n}\n\n")
 	sb.WriteString("var ws = make([]int, 64)\n\nfunc step(k int) {\n\tfmt.Println(\"post\", k)\n\tws[k]++\n}\n\nfunc reset(k int) int {\n\tws[k] = 0\n\treturn k\n}\n\n")
-	sb.WriteString("func f(p int) {\n")
+	sb.WriteString("func f(p int) {\n\tacc := p\n\tzs := []int{1, 2, 3, 4}\n")
 	sb.WriteString(p.sb.String())
-	sb.WriteString("\tfmt.Println(\"end\", p)\n}\n\n")
+	sb.WriteString("\tfmt.Println(\"end\", p, acc, zs)\n}\n\n")
 	sb.WriteString("func Main() {\n\tfor p := 0; p < 3; p++ {\n\t\tfmt.Println(\"call\", p)\n\t\tf(p)\n\t}\n\tfmt.Println(inc(1, 0), one(0), is(1, 1))\n}\n")
 	return sb.String(), p.jumps
 }
@@ -302,7 +316,11 @@ func (g *genState) stmt(depth int, inLoop, inSwitch bool) *Node {
 	}
 	switch rx.Weighted(rt, "stmt", w...) {
 	case 0:
-		return &Node{K: "t", ID: g.nextID()}
+		n := &Node{K: "t", ID: g.nextID()}
+		if rapid.Bool().Draw(rt, "filled") {
+			n.Fill = 1 + rx.Uniform(rt, len(fillers)-1, "fill")
+		}
+		return n
 	case 1:
 		n := &Node{K: "if", ID: g.nextID(), Cond: rx.Uniform(rt, 7, "cond"), CK: rx.Uniform(rt, 4, "ck")}
 		n.Body = g.stmts(depth+1, inLoop, inSwitch, 3)
@@ -318,7 +336,7 @@ func (g *genState) stmt(depth int, inLoop, inSwitch bool) *Node {
 		}
 		return n
 	case 2:
-		n := &Node{K: "for", ID: g.nextID(), N: rx.Range(rt, "bound", 1, 3), Post: rx.Uniform(rt, 5, "post")}
+		n := &Node{K: "for", ID: g.nextID(), N: rx.Range(rt, "bound", 1, 3), Post: rx.Uniform(rt, 6, "post")}
 		n.Body = g.stmts(depth+1, true, false, 4)
 		return n
 	case 3:
@@ -464,9 +482,33 @@ func enumerate(n int, visit func(s *Skel)) {
 		}
 		return res
 	}
+	serial := 0
 	for _, body := range lists(n, 0, false, false) {
 		id = 0
-		visit(&Skel{Body: cloneNumbered(body, &id)})
+		sk := &Skel{Body: cloneNumbered(body, &id)}
+		// decorate: every other skeleton gets a filler after each trace, chosen by position and serial number
+		serial++
+		if serial%2 == 0 {
+			decorate(sk.Body, serial/2)
+		}
+		visit(sk)
+	}
+}
+
+func decorate(ns []*Node, salt int) {
+	for _, n := range ns {
+		if n.K == "t" {
+			n.Fill = 1 + (salt+n.ID*5)%(len(fillers)-1)
+		}
+		if n.K == "for" && n.Post == 1 && (salt+n.ID)%3 == 0 {
+			n.Post = 5
+		}
+		decorate(n.Body, salt)
+		decorate(n.Else, salt)
+		decorate(n.Def, salt)
+		for _, c := range n.Cases {
+			decorate(c.Body, salt)
+		}
 	}
 }
 
